@@ -141,7 +141,7 @@ def flushOne (s : Srv) (d : DCl) : Srv × DCl × Option String × Option (List (
     let S := corr same s.main.w s.main.h c.sw c.sh I
     let pic' := match d.pic with
       | some p => some (paste p simg S)
-      | none => none
+      | none => if upd == fullSet && d.pw == c.sw && d.ph == c.sh then some simg else none
     let pend' : Pend := if rectEq I P then {} else ⟨pendSet', none⟩
     (s, { d with pend := pend', rq := {}, pic := pic', insync := d.insync || upd == fullSet },
      nfsS, some [(I, S)])
